@@ -46,6 +46,7 @@ type scriptScn struct {
 	CutErr    [2]string   `json:"cuterr"`  // "", "timeout", "temporary": the kind of error the failing trunk.Write returns (see recConn)
 	Blocked   [2]bool     `json:"blocked"` // the side's reader stays blocked until an "unblock" act
 	Raw       [2]bool     `json:"raw"`     // the side is a bare transport end without a Mux
+	Plain     [2]bool     `json:"plain"`   // the side's Mux is created WITHOUT WithBlockedRead: never blocked, Unblock is not called at set-up
 	Acts      []act       `json:"acts"`
 }
 
@@ -160,7 +161,11 @@ func execScript(s *scriptScn) *scriptObs {
 		if s.Raw[side] {
 			continue
 		}
-		muxes[side] = multiplex.Multiplex(recs[side], multiplex.WithReadQueueLength(s.QLen), multiplex.WithBlockedRead())
+		if s.Plain[side] {
+			muxes[side] = multiplex.Multiplex(recs[side], multiplex.WithReadQueueLength(s.QLen))
+		} else {
+			muxes[side] = multiplex.Multiplex(recs[side], multiplex.WithReadQueueLength(s.QLen), multiplex.WithBlockedRead())
+		}
 		for _, id := range s.Open[side] {
 			cn, err := muxes[side].Open(multiplex.ConnID(id))
 			if err != nil {
@@ -171,7 +176,7 @@ func execScript(s *scriptScn) *scriptObs {
 		}
 	}
 	for side := 0; side < 2; side++ {
-		if muxes[side] != nil && !s.Blocked[side] {
+		if muxes[side] != nil && !s.Blocked[side] && !s.Plain[side] {
 			muxes[side].Unblock()
 		}
 	}
@@ -478,8 +483,9 @@ func execScript(s *scriptScn) *scriptObs {
 				r = actRes{Kind: "timeout", Err: "the Mux did not close its trunk"}
 			}
 		case "unblock":
-			muxes[side].Unblock()
-			r = actRes{Kind: "ok"}
+			// at any time, on a blocked Mux, on one that was never blocked, repeatedly
+			m := muxes[side]
+			r = bounded(func() actRes { m.Unblock(); return actRes{Kind: "ok"} })
 		case "raw":
 			b, _ := hex.DecodeString(a.Hex)
 			rc := recs[side]
